@@ -220,7 +220,7 @@ func Explore(env *Env, cfg ExploreConfig, fn *ssa.Function) *Result {
 		cfg.SolverTimeout = 2000
 	}
 	if cfg.FallbackMs == 0 {
-		cfg.FallbackMs = 60000
+		cfg.FallbackMs = 180000
 	}
 
 	var mu sync.Mutex
